@@ -113,10 +113,12 @@ def rand_list(rng, cat, maxlen=12, allow_odd=True):
     return out
 
 
-def rand_net(rng, inside_lines=False, faults=True):
+def rand_net(rng, inside_lines=None, faults=True):
     """Swarm-style delivery schedule: one latency regime, one segmentation policy."""
     net = {'rtt_us': rng.choice([40, 200, 1000, 8000, 60000, 200000]), 'jitter_us': rng.choice([0, 0, 50, 2000])}
     mode = rng.choice(['msg', 'msg', 'mss', 'rand', 'byte'])
+    if inside_lines is None:
+        inside_lines = rng.random() < 0.5
     seg = {'mode': mode, 'banner_atomic': not inside_lines}
     if mode == 'mss':
         seg['mss'] = rng.choice([1, 2, 3, 4, 5, 7, 8, 16, 64, 536, 1460])
